@@ -80,7 +80,7 @@ def gen_case(rng, max_events):
 
 def gen(rng, tier):
     big = tier == "thorough"
-    cases = [gen_case(rng, 500 if big else 150) for _ in range(6000 if big else 1200)]
+    cases = [gen_case(rng, 500 if big else 150) for _ in range(6000 if big else 2500)]
     return [("histories", cases)]
 
 
